@@ -668,7 +668,8 @@ def run_job(job: dict) -> list[dict]:
             out.append(dot_case(jid, outs, "witness"))
             out.append(repr_case(jid + "/repr", g, "witness"))
             for nm, a in outs.items():
-                out.append(repr_case(f"{jid}/repr/{nm}", a, "witness", depths=(0, 1, 3, 6)))
+                out.append(repr_case(f"{jid}/repr/{nm}", a, "witness",
+                                     depths=tuple(job.get("depths", (0, 1, 3, 6)))))
             out.append(fancy_case(jid + "/fancy", outs, "witness"))
         elif kind == "api":
             outs = api_graphs()[job["name"]]()
@@ -685,7 +686,8 @@ def run_job(job: dict) -> list[dict]:
                 import pytato as pt
                 out.append(repr_case(jid + "/repr", pt.make_dict_of_named_arrays(outs), "api"))
                 for nm, a in list(outs.items()):
-                    out.append(repr_case(f"{jid}/repr/{nm}", a, "api", depths=(0, 2, 3, 5)))
+                    out.append(repr_case(f"{jid}/repr/{nm}", a, "api",
+                                         depths=tuple(job.get("depths", (0, 2, 3, 5)))))
                 out.append(fancy_case(jid + "/fancy", outs, "api"))
                 out.append(reuse_case(jid + "/reuse", list(outs.values()), "api"))
         elif kind == "traceback":
